@@ -1,5 +1,6 @@
 //! C13, part 3: tuple/collection/option serialisation, smart pointers, versioned fields.
 use super::c13_io::{ds, strs, u64s, u8s, Chunky};
+use super::c13_uni::{self as uni, Uni};
 use super::Ctx;
 use crate::util::*;
 use serde_json::{json, Value};
@@ -40,16 +41,19 @@ fn check_dec<T: PartialEq + Debug>(what: &str, bytes: &[u8], tail: &[u8], v: &T,
     Ok(())
 }
 
-fn complex_rt<T: ComplexSerialize + PartialEq + Debug>(mk: &dyn Fn() -> T, tail: &[u8]) -> R<()> {
+fn complex_rt<T: ComplexSerialize + PartialEq + Debug + Uni>(mk: &dyn Fn() -> T, tail: &[u8]) -> R<()> {
     let v = mk();
     let mut o = VecDataOutput::new();
     v.serialize_data(&mut o).map_err(es)?;
     let b1 = o.into_vec();
     check_dec("serialize_data", &b1, tail, &v, &|i| T::deserialize_with_version(i, T::version()), &|i| T::deserialize_with_version(i, T::version()))?;
+    // model tie: the same object (a hash map iterates in one order while it is not modified), its bytes, the tail
+    uni::stash(uni::ty_of::<T>(), uni::val_of(&v), &b1, tail);
     let mut o = VecDataOutput::new();
     v.serialize_with_metadata(&mut o).map_err(es)?;
     let b2 = o.into_vec();
     check_dec("serialize_with_metadata", &b2, tail, &v, &|i| T::deserialize_with_metadata(i), &|i| T::deserialize_with_metadata(i))?;
+    uni::stash(uni::meta_ty(T::type_id(), T::version(), &uni::ty_of::<T>()), uni::val_of(&v), &b2, tail);
     // consecutive encodings concatenate and read back in order
     let mut o = VecDataOutput::new();
     v.serialize_data(&mut o).map_err(es)?;
@@ -87,11 +91,13 @@ fn complex_rt<T: ComplexSerialize + PartialEq + Debug>(mk: &dyn Fn() -> T, tail:
     Ok(())
 }
 
-pub fn stype_rt<T: SerializableType + PartialEq + Debug>(v: &T, tail: &[u8]) -> R<()> {
+pub fn stype_rt<T: SerializableType + PartialEq + Debug + Uni>(v: &T, tail: &[u8]) -> R<()> {
     let mut o = VecDataOutput::new();
     v.serialize(&mut o).map_err(es)?;
     let b = o.into_vec();
-    check_dec("SerializableType", &b, tail, v, &|i| T::deserialize(i), &|i| T::deserialize(i))
+    check_dec("SerializableType", &b, tail, v, &|i| T::deserialize(i), &|i| T::deserialize(i))?;
+    uni::stash(uni::ty_of::<T>(), uni::val_of(v), &b, tail);
+    Ok(())
 }
 
 fn geti(ints: &[u64], i: usize) -> u64 { ints.get(i).copied().unwrap_or(0) }
@@ -106,6 +112,11 @@ mod macro_struct {
     #[derive(Debug, PartialEq, Clone)]
     pub struct MRec { pub a: u32, pub b: String, pub c: Vec<u16>, pub d: Option<i64> }
     zipora::impl_complex_serialize!(MRec { a: u32, b: String, c: Vec<u16>, d: Option<i64> });
+    // the macro writes the fields in order: the same bytes as the tuple of the fields
+    impl super::Uni for MRec {
+        fn ty(out: &mut Vec<i128>) { <(u32, String, Vec<u16>, Option<i64>) as super::Uni>::ty(out); }
+        fn val(&self, out: &mut Vec<i128>) { self.a.val(out); self.b.val(out); self.c.val(out); self.d.val(out); }
+    }
 }
 pub const N_COMPLEX: usize = 30;
 pub fn complex(cx: &mut Ctx, kind: usize, ints: &[u64], ss: &[String], tail: &[u8]) {
@@ -118,6 +129,7 @@ pub fn complex(cx: &mut Ctx, kind: usize, ints: &[u64], ss: &[String], tail: &[u
     let cj = json!({"cell": "complex", "kind": kind, "ints": ds(ints), "strs": ss, "tail": tail});
     if !cx.gate(&cj) { return; }
     cx.sum.eval(&cell, &cj.to_string(), ints.len() + ss.len() >= 2);
+    uni::stash_clear();
     let i = |k: usize| geti(ints, k);
     let s = |k: usize| gets(ss, k);
     let r = guarded(|| -> R<()> {
@@ -168,6 +180,8 @@ pub fn complex(cx: &mut Ctx, kind: usize, ints: &[u64], ss: &[String], tail: &[u
                 2 => { let v: Vec<u32> = ints.iter().map(|&x| x as u32).collect(); let _ = v.serialize(&mut o); cx.coq_bytes_case(21, &v.iter().map(|&x| x as i128).collect::<Vec<_>>(), o.as_slice()); }
                 _ => {}
             }
+            // every shape through the type-universe model: encoder bytes, decoded value, bytes consumed (plain and with metadata)
+            cx.coq_uni(&cell, 3, false);
         }
     }
 }
@@ -208,6 +222,7 @@ pub fn smart_ptr(cx: &mut Ctx, kind: usize, ints: &[u64], ss: &[String], tail: &
     let cj = json!({"cell": "smart_ptr", "kind": kind, "ints": ds(ints), "strs": ss, "tail": tail});
     if !cx.gate(&cj) { return; }
     cx.sum.eval(&cell, &cj.to_string(), true);
+    uni::stash_clear();
     let i = |k: usize| geti(ints, k);
     let s = |k: usize| gets(ss, k);
     let mut class: Option<&'static str> = None;
@@ -388,7 +403,8 @@ pub fn smart_ptr(cx: &mut Ctx, kind: usize, ints: &[u64], ss: &[String], tail: &
     match r {
         Err(p) => cx.sum.fail(&cell, None, cj, &format!("panicked: {}", p)),
         Ok(Err(why)) => cx.sum.fail(&cell, class, cj, &why),
-        Ok(Ok(())) => {}
+        // pointers as elements (the context-free bridges) are part of the type-universe model
+        Ok(Ok(())) => if kind == 8 { cx.coq_uni(&cell, 3, false) },
     }
 }
 
@@ -431,6 +447,9 @@ fn rec_rt<const V: u32>(id: u32, name: &str, score: u64, tail: &[u8]) -> R<()> {
     v.serialize_versioned(&mut o).map_err(es)?;
     let b = o.into_vec();
     check_dec("serialize_versioned/deserialize_versioned", &b, tail, &want, &|i| Rec::<V>::deserialize_versioned(i), &|i| Rec::<V>::deserialize_versioned(i))?;
+    // model tie (versioned-record model): the writer's bytes; the record read back and the bytes consumed, as just checked
+    uni::rstash_enc(cur, id, name, score, &b);
+    { let mut all = b.clone(); all.extend_from_slice(tail); uni::rstash_dec(cur, &all, &(want.id, want.name.clone(), want.score), b.len()); }
     for (n, cfg) in [VersionConfig::new(), VersionConfig::strict(), VersionConfig::flexible(), VersionConfig::development()].into_iter().enumerate() {
         let s = VersionedSerializer::new(cfg);
         let by = s.serialize_to_bytes(&v).map_err(es)?;
@@ -457,6 +476,8 @@ pub fn versioning(cx: &mut Ctx, kind: usize, ints: &[u64], ss: &[String], tail: 
     let s = |k: usize| gets(ss, k);
     let mut class: Option<&'static str> = None;
     let mut model: Option<(Vec<i128>, Vec<u8>, Vec<i128>)> = None;
+    uni::rstash_clear();
+    uni::stash_clear();
     let r = guarded(|| -> R<()> {
         match kind {
             0 => {
@@ -568,6 +589,7 @@ pub fn versioning(cx: &mut Ctx, kind: usize, ints: &[u64], ss: &[String], tail: 
         Ok(Ok(())) => {
             if class.is_some() { cx.sum.dist("known_class_but_passed"); }
             if let Some((ints, bytes, _)) = model { cx.coq_bytes_case(22, &ints, &bytes); }
+            if kind == 3 { cx.coq_rec(&cell, 6); }
         }
     }
 }
